@@ -294,6 +294,17 @@ func c16Child(a *ChildArgs) {
 				a.Rec.Viol("C16/absolute/"+pl.Name, "each documented payload is reported with its documented class and severity as the WHERE condition of a top-level statement",
 					fmt.Sprintf("no entry point reports %s for the payload at top level; union of findings: %v", want, unionAbs.keys()), map[string]interface{}{"payload": pl.Texts[0]})
 			}
+			// the tree scanner documents every one of these classes itself: it must not rely on the text scanners for any of them
+			okTree := false
+			for k := range base["Scanner.Scan"] {
+				if pl.Sev == "" && strings.HasPrefix(k, string(pl.Class)+"/") || k == want {
+					okTree = true
+				}
+			}
+			if ok && !okTree {
+				a.Rec.Viol("C16/absolute-tree-scanner/"+pl.Name, "each documented payload is reported with its documented class and severity as the WHERE condition of a top-level statement",
+					fmt.Sprintf("Scanner.Scan on the parsed tree does not report %s for the payload at top level (only the text scanners do); it reports: %v", want, base["Scanner.Scan"].keys()), map[string]interface{}{"payload": pl.Texts[0]})
+			}
 		}
 		for _, pos := range positions {
 			if pos.Kind != pl.Kind {
